@@ -1,8 +1,676 @@
 import Grass.Proto
-/- Core `Num` — stub; replaced by the model (see DESIGN.md §8). -/
+/-
+  C07 core — Sass numbers: IEEE doubles with Sass rounding, modulo and printing rules.
+
+  Mirrors (file:line of /repo/crates/compiler/src):
+    value/number.rs:16-46    PRECISION, epsilon, inverse_epsilon, fuzzy_equals
+    value/number.rs:48-61    fuzzy_as_int
+    value/number.rs:63-85    fuzzy_round, fuzzy_less_than, fuzzy_less_than_or_equals
+    value/number.rs:121-135  round / ceil / floor / abs
+    value/number.rs:265-300  Number::to_string   (second copy of the printing rule)
+    value/number.rs:378-398  real_mod, modulo
+    serializer.rs:568-606    write_float
+    parse/value.rs:980-1092  parse_number, try_decimal, try_exponent
+    value/mod.rs:341-386     Value::cmp          (ordering of numbers)
+    evaluate/bin_op.rs       add / sub / mul / div / rem on unitless numbers
+    builtin/functions/math.rs round / ceil / floor / abs, list.rs:11 nth
+
+  A finite double is its exact rational value (`Rat`); IEEE round-to-nearest-even to 53
+  significant bits is the explicit function `rnd53`.  `Float` is never used.
+  Out-of-range magnitudes (subnormal results) are answered `unsupported`, never guessed.
+-/
 namespace Grass.Num
 
+/-! ## exact helpers on `Rat` -/
+
+def absQ (q : Rat) : Rat := if q < 0 then -q else q
+
+/-- `f64::round`: nearest integer, halves away from zero. -/
+def roundHA (q : Rat) : Int :=
+  if q < 0 then -((-q + 1/2).floor) else (q + 1/2).floor
+
+def ceilQ (q : Rat) : Int := -((-q).floor)
+
+/-- truncation toward zero (the quotient used by C `fmod` / Rust `%` on floats) -/
+def truncQ (q : Rat) : Int := if q < 0 then -((-q).floor) else q.floor
+
+/-- round-half-even of `num/den` (`den > 0`) -/
+def divRoundEven (num den : Nat) : Nat :=
+  let q := num / den
+  let r := num % den
+  if 2 * r < den then q else if den < 2 * r then q + 1 else if q % 2 = 0 then q else q + 1
+
+/-! ## `rnd53`: round to nearest double (53 significant bits, ties to even, unbounded exponent) -/
+
+/-- `num/den ≥ 2^d` -/
+def geP2 (num den : Nat) (d : Int) : Bool :=
+  if d ≥ 0 then decide (den * 2 ^ d.toNat ≤ num) else decide (den ≤ num * 2 ^ (-d).toNat)
+
+/-- `⌊log₂ (num/den)⌋` for `num, den > 0` -/
+def binExp (num den : Nat) : Int :=
+  let d : Int := (Nat.log2 num : Int) - (Nat.log2 den : Int)
+  if geP2 num den d then d else d - 1
+
+/-- mantissa/exponent of the nearest 53-bit value: `m·2^e`, `2^52 ≤ m ≤ 2^53`. -/
+def rndPosME (num den : Nat) : Nat × Int :=
+  let e := binExp num den - 52
+  let m := if e ≥ 0 then divRoundEven num (den * 2 ^ e.toNat)
+           else divRoundEven (num * 2 ^ (-e).toNat) den
+  (m, e)
+
+def pow2 (e : Int) : Rat :=
+  if e ≥ 0 then ((2 ^ e.toNat : Nat) : Rat) else 1 / ((2 ^ (-e).toNat : Nat) : Rat)
+
+def rndPos (q : Rat) : Rat :=
+  let me := rndPosME q.num.natAbs q.den
+  (me.1 : Rat) * pow2 me.2
+
+def rnd53 (q : Rat) : Rat :=
+  if q = 0 then 0 else if q < 0 then -(rndPos (-q)) else rndPos q
+
+/-- binary exponent of a non-zero rational -/
+def expOf (q : Rat) : Int := binExp q.num.natAbs q.den
+
+/-- a non-zero value lies in the normal range of f64 -/
+def normalRange (q : Rat) : Bool := decide (-1022 ≤ expOf q) && decide (absQ q < pow2 1024)
+
+/-! ## doubles with the IEEE specials -/
+
+inductive D where
+  | fin (q : Rat)      -- finite, `fin 0` is +0
+  | nz                 -- −0
+  | pinf | ninf | nan
+  deriving DecidableEq, Repr, Inhabited
+
+namespace D
+
+def isNeg : D → Bool          -- the sign bit (`is_sign_negative`), NaN counted positive
+  | fin q => decide (q < 0) | nz => true | ninf => true | _ => false
+
+def toRat? : D → Option Rat
+  | fin q => some q | nz => some 0 | _ => none
+
+def isZero : D → Bool         -- IEEE `== 0.0`
+  | fin q => decide (q = 0) | nz => true | _ => false
+
+def isFinite : D → Bool
+  | fin _ => true | nz => true | _ => false
+
+def isNan : D → Bool
+  | nan => true | _ => false
+
+def isInf : D → Bool
+  | pinf => true | ninf => true | _ => false
+
+def zero (neg : Bool) : D := if neg then nz else fin 0
+
+def inf (neg : Bool) : D := if neg then ninf else pinf
+
+/-- Round a non-zero exact result into a double; `none` = below the normal range (not modelled). -/
+def ofNonzero (q : Rat) : Option D :=
+  let r := rnd53 q
+  if absQ r ≥ pow2 1024 then some (inf (decide (q < 0)))
+  else if expOf r < -1022 then none
+  else some (fin r)
+
+/-- exact result `q`, with the sign an exact zero takes -/
+def ofExact (q : Rat) (zeroNeg : Bool) : Option D :=
+  if q = 0 then some (zero zeroNeg) else ofNonzero q
+
+def neg : D → D
+  | fin q => if q = 0 then nz else fin (-q)
+  | nz => fin 0 | pinf => ninf | ninf => pinf | nan => nan
+
+def abs : D → D
+  | fin q => fin (absQ q) | nz => fin 0 | pinf => pinf | ninf => pinf | nan => nan
+
+def add (a b : D) : Option D :=
+  match a, b with
+  | nan, _ => some nan | _, nan => some nan
+  | pinf, ninf => some nan | ninf, pinf => some nan
+  | pinf, _ => some pinf | _, pinf => some pinf
+  | ninf, _ => some ninf | _, ninf => some ninf
+  | nz, nz => some nz
+  | fin x, fin y => ofExact (x + y) false
+  | fin x, nz => some (fin x)
+  | nz, fin y => some (fin y)
+
+def sub (a b : D) : Option D := add a (neg b)
+
+def mul (a b : D) : Option D :=
+  let s := a.isNeg != b.isNeg
+  match a, b with
+  | nan, _ => some nan | _, nan => some nan
+  | _, _ =>
+    if a.isInf || b.isInf then
+      (if a.isZero || b.isZero then some nan else some (inf s))
+    else
+      match a.toRat?, b.toRat? with
+      | some x, some y => ofExact (x * y) s
+      | _, _ => some nan
+
+def div (a b : D) : Option D :=
+  let s := a.isNeg != b.isNeg
+  match a, b with
+  | nan, _ => some nan | _, nan => some nan
+  | _, _ =>
+    if a.isInf then (if b.isInf then some nan else some (inf s))
+    else if b.isInf then some (zero s)
+    else if b.isZero then (if a.isZero then some nan else some (inf s))
+    else
+      match a.toRat?, b.toRat? with
+      | some x, some y => ofExact (x / y) s
+      | _, _ => some nan
+
+/-- IEEE `==` -/
+def eq (a b : D) : Bool :=
+  match a, b with
+  | nan, _ => false | _, nan => false
+  | pinf, pinf => true | ninf, ninf => true
+  | _, _ => match a.toRat?, b.toRat? with
+    | some x, some y => decide (x = y)
+    | _, _ => false
+
+/-- IEEE `<` -/
+def lt (a b : D) : Bool :=
+  match a, b with
+  | nan, _ => false | _, nan => false
+  | pinf, _ => false | _, ninf => false
+  | _, pinf => true | ninf, _ => true
+  | _, _ => match a.toRat?, b.toRat? with
+    | some x, some y => decide (x < y)
+    | _, _ => false
+
+/-- `f64::round` keeping the sign of zero -/
+def round : D → D
+  | fin q => let r := roundHA q; if r = 0 ∧ q < 0 then nz else fin r
+  | d => d
+
+def ceil : D → D
+  | fin q => let r := ceilQ q; if r = 0 ∧ q < 0 then nz else fin r
+  | d => d
+
+def floor : D → D
+  | fin q => fin q.floor
+  | d => d
+
+end D
+
+/-! ## fuzzy comparison (number.rs:16-85)
+
+  `…F` is the code as written, every floating-point operation followed by `rnd53`;
+  `…X` is the same formula in exact arithmetic (the Sass rule the property speaks about). -/
+
+/-- `epsilon()` = `10f64.powi(-11)` = the double nearest 10⁻¹¹ -/
+def epsF : Rat := rnd53 (1 / 100000000000)
+/-- `inverse_epsilon()` = 10¹¹ (exact) -/
+def invEps : Rat := 100000000000
+
+/-- number.rs:40 `fuzzy_equals`, floating point as executed -/
+def fuzzyEqF (a b : Rat) : Bool :=
+  a == b ||
+    (decide (absQ (rnd53 (a - b)) ≤ epsF) &&
+      roundHA (rnd53 (a * invEps)) == roundHA (rnd53 (b * invEps)))
+
+/-- the same rule in exact arithmetic -/
+def fuzzyEqX (a b : Rat) : Bool :=
+  a == b ||
+    (decide (absQ (a - b) ≤ 1 / invEps) && roundHA (a * invEps) == roundHA (b * invEps))
+
+/-- the 10⁻¹¹ bucket a number falls in -/
+def bucket (a : Rat) : Int := roundHA (a * invEps)
+
+/-- number.rs:79 -/
+def fuzzyLt (eq : Rat → Rat → Bool) (a b : Rat) : Bool := decide (a < b) && !eq a b
+/-- number.rs:83 -/
+def fuzzyLe (eq : Rat → Rat → Bool) (a b : Rat) : Bool := decide (a < b) || eq a b
+
+/-- number.rs:48 `fuzzy_as_int` (finite argument) -/
+def fuzzyAsInt (eq : Rat → Rat → Bool) (x : Rat) : Option Int :=
+  let r := roundHA x
+  if eq x r then some r else none
+
+/-- Rust `%` on floats (C `fmod`), exact: the result has the sign of `a`, `|r| < |b|`. `b ≠ 0`. -/
+def fmodQ (a b : Rat) : Rat := a - b * (truncQ (a / b) : Rat)
+
+/-- number.rs:63 `fuzzy_round` in exact arithmetic (`x % 1.0` is `fmodQ x 1`). -/
+def fuzzyRoundX (x : Rat) : Int :=
+  if 0 < x then
+    (if fuzzyLt fuzzyEqX (fmodQ x 1) (1/2) then x.floor else ceilQ x)
+  else if fuzzyLe fuzzyEqX (fmodQ x 1) (1/2) then x.floor else ceilQ x
+
+/-! ## modulo (number.rs:378-398) -/
+
+/-- `f64::rem_euclid` in exact arithmetic -/
+def remEuclidX (a b : Rat) : Rat :=
+  let r := fmodQ a b
+  if r < 0 then r + absQ b else r
+
+/-- Sass `%` in exact arithmetic; `none` = NaN (zero divisor) -/
+def moduloX (a b : Rat) : Option Rat :=
+  if 0 < b then some (remEuclidX a b)
+  else if b = 0 then none
+  else
+    let r := remEuclidX a b
+    if r = 0 then some 0 else some (r + b)
+
+/-- C `fmod` on doubles, keeping the sign of zero (exact: the result is always representable) -/
+def fmodD (a : D) (x y : Rat) : D :=
+  let r := fmodQ x y
+  if r = 0 then D.zero a.isNeg else D.fin r
+
+/-- `f64::rem_euclid` as executed (`r + rhs.abs()` is rounded) -/
+def remEuclidD (a b : D) : Option D :=
+  match a.toRat?, b.toRat? with
+  | some x, some y =>
+    if y = 0 then some D.nan else
+    let r := fmodD a x y
+    if D.lt r (D.fin 0) then D.add r (D.abs b) else some r
+  | _, _ => none          -- non-finite operands of `%`: not modelled
+
+/-- number.rs:382 `modulo` as executed -/
+def moduloD (a b : D) : Option D :=
+  if D.lt (D.fin 0) b then remEuclidD a b
+  else if b.isZero then some D.nan
+  else
+    match remEuclidD a b with
+    | none => none
+    | some r => if r.isZero then some (D.fin 0) else D.add r b
+
+/-! ## printing (serializer.rs:568 `write_float`, number.rs:265 `to_string`) -/
+
+def digitChar (d : Nat) : Char := Char.ofNat (48 + d)
+
+/-- decimal digits of a natural number, no leading zeros, `"0"` for 0 -/
+def natDigits (n : Nat) : List Char :=
+  if h : n < 10 then [digitChar n] else natDigits (n / 10) ++ [digitChar (n % 10)]
+termination_by n
+decreasing_by omega
+
+/-- exactly `k` digits (most significant first) of `n % 10^k` -/
+def fracDigits : Nat → Nat → List Char
+  | 0, _ => []
+  | k + 1, n => fracDigits k (n / 10) ++ [digitChar (n % 10)]
+
+def trimStart (c : Char) (l : List Char) : List Char := l.dropWhile (· == c)
+def trimEnd (c : Char) (l : List Char) : List Char := (l.reverse.dropWhile (· == c)).reverse
+
+/-- `|x|·10¹⁰` rounded half-even to a natural number — what `format!("{:.10}")` prints -/
+def scaled10 (x : Rat) : Nat := divRoundEven (x.num.natAbs * 10000000000) x.den
+
+/-- `format!("{:.10}", |x|)` -/
+def fixed10 (s : Nat) : List Char :=
+  natDigits (s / 10000000000) ++ '.' :: fracDigits 10 (s % 10000000000)
+
+/-- The text pushed after the sign.  `sliceOne = true` is the variant found on the pinned tree
+    (`format!(…)[1..]`, the first byte assumed to be a leading zero); `false` is the code as it
+    stands (`trim_start_matches('0')`). -/
+def printAbs (sliceOne compressed lt1 : Bool) (s : Nat) : List Char :=
+  let t := fixed10 s
+  let t := if compressed && lt1 then (if sliceOne then t.drop 1 else trimStart '0' t) else t
+  trimEnd '.' (trimEnd '0' t)
+
+/-- `write_float` for a finite value: `neg` is `float < 0.0`, `lt1` is `|float| < 1.0`. -/
+def printFinite (sliceOne compressed : Bool) (x : Rat) : List Char :=
+  let buf := (if x < 0 then ['-'] else []) ++ printAbs sliceOne compressed (decide (absQ x < 1)) (scaled10 x)
+  if buf = [] ∨ buf = ['-'] ∨ buf = ['-', '0'] then ['0'] else buf
+
+def printD (sliceOne compressed : Bool) : D → List Char
+  | .fin q => printFinite sliceOne compressed q
+  | .nz => ['0']
+  | .pinf => "Infinity".toList
+  | .ninf => "-Infinity".toList
+  | .nan => "NaN".toList
+
+/-- the number the printed text is supposed to denote: `x` rounded to 10 fractional digits -/
+def round10 (x : Rat) : Rat :=
+  let v : Rat := (scaled10 x : Rat) / 10000000000
+  if x < 0 then -v else v
+
+/-! ## number literals (parse/value.rs:980) and re-reading printed text -/
+
+def isDigit (c : Char) : Bool := decide ('0' ≤ c ∧ c ≤ '9')
+
+def valDigits (ds : List Char) : Nat := ds.foldl (fun a c => 10 * a + (c.toNat - 48)) 0
+
+structure Lit where
+  neg  : Bool
+  int  : List Char
+  frac : List Char
+  exp  : Int
+  deriving DecidableEq, Repr
+
+/-- exact value of a literal -/
+def Lit.value (l : Lit) : Rat :=
+  let m : Rat := (valDigits (l.int ++ l.frac) : Rat) / ((10 ^ l.frac.length : Nat) : Rat)
+  let m := if l.exp ≥ 0 then m * ((10 ^ l.exp.toNat : Nat) : Rat) else m / ((10 ^ (-l.exp).toNat : Nat) : Rat)
+  if l.neg then -m else m
+
+/-- `try_exponent` (value.rs:1049) on the rest of the text; the whole rest must be consumed. -/
+def parseExp (s : List Char) : Option Int :=
+  match s with
+  | [] => some 0
+  | c :: r =>
+    if c == 'e' || c == 'E' then
+      match r with
+      | '+' :: ds => if ds ≠ [] ∧ ds.all isDigit then some (valDigits ds : Int) else none
+      | '-' :: ds => if ds ≠ [] ∧ ds.all isDigit then some (-(valDigits ds : Int)) else none
+      | ds => if ds ≠ [] ∧ ds.all isDigit then some (valDigits ds : Int) else none
+    else none
+
+/-- `parse_number` restricted to unit-less literals that are consumed completely:
+    `[+-]? digits? (. digits+)? ([eE] [+-]? digits+)?` with at least one digit before the exponent. -/
+def parseLit (s : List Char) : Option Lit :=
+  let (neg, s) := match s with
+    | '-' :: r => (true, r)
+    | '+' :: r => (false, r)
+    | _ => (false, s)
+  let int := s.takeWhile isDigit
+  let s := s.dropWhile isDigit
+  -- `consume_natural_number` is skipped only when the next char is '.'
+  if int = [] ∧ s.head? ≠ some '.' then none else
+  match s with
+  | '.' :: r =>
+    let frac := r.takeWhile isDigit
+    if frac = [] then none else
+    (parseExp (r.dropWhile isDigit)).map fun e => { neg, int, frac, exp := e }
+  | _ => (parseExp s).map fun e => { neg, int, frac := [], exp := e }
+
+/-- the double a literal denotes (`str::parse::<f64>` is correctly rounded); `-0` literals give −0 -/
+def litD (l : Lit) : Option D := D.ofExact l.value l.neg
+
+/-! ## the property predicates P̂ evaluated on a printed text -/
+
+/-- plain decimal notation: optional '-', digits, optional '.' followed by 1–10 digits the last of
+    which is not '0'; at least one digit overall; not "-0"; (so: no exponent, no '+', no trailing
+    zeros, at most 10 fractional digits, no negative zero). -/
+def shapeOK (s : List Char) : Bool :=
+  let body := match s with
+    | '-' :: r => r
+    | _ => s
+  let int := body.takeWhile isDigit
+  let rest := body.dropWhile isDigit
+  let fracOK := match rest with
+    | [] => int ≠ []
+    | '.' :: f => f ≠ [] && f.all isDigit && f.length ≤ 10 && f.getLast? ≠ some '0'
+    | _ => false
+  let allZero := (int ++ rest).all (fun c => c == '0' || c == '.')
+  fracOK && !(s.head? == some '-' && allZero)
+
+/-- no superfluous leading zero in the integer part (`007`), expanded style keeps a single `0` -/
+def leadOK (compressed : Bool) (s : List Char) : Bool :=
+  let body := match s with
+    | '-' :: r => r
+    | _ => s
+  match body with
+  | '0' :: c :: _ => if compressed then false else c == '.'
+  | _ => true
+
+/-- correctly rounded: the text denotes a number within ½·10⁻¹⁰ of `x` -/
+def roundedOK (x : Rat) (s : List Char) : Bool :=
+  match parseLit s with
+  | some l => decide (2 * absQ (l.value - x) * 10000000000 ≤ 1)
+  | none => false
+
+/-- re-reading the text gives a number `==` to `x` (as Sass would execute it) -/
+def rereadF (x : Rat) (s : List Char) : Option Bool :=
+  match parseLit s with
+  | some l =>
+    match litD l with
+    | some d => match d.toRat? with
+      | some y => some (fuzzyEqF y x)
+      | none => some false
+    | none => none
+  | none => some false
+
+/-- re-reading in exact arithmetic -/
+def rereadX (x : Rat) (s : List Char) : Bool :=
+  match parseLit s with
+  | some l => fuzzyEqX l.value x
+  | none => false
+
+/-- The class of known finding D15, decided on the number alone: the correctly rounded 10-digit
+    decimal of `x` is not fuzzy-equal to `x` (Sass prints 10 digits and compares 11). -/
+def d15Class (x : Rat) : Bool := !fuzzyEqF (rnd53 (round10 x)) x
+/-- the exact-arithmetic characterisation (theorem `C07_reread_fuzzyEq_iff`) -/
+def d15ClassX (x : Rat) : Bool := !(bucket x == 10 * (if x < 0 then -(scaled10 x : Int) else (scaled10 x : Int)))
+
+/-! ## expressions (what the correspondence run sends) -/
+
+inductive Err where
+  | unsupported | toInt | notInt | zeroIdx | badIdx | type
+  deriving DecidableEq, Repr
+
+inductive V where
+  | num (d : D)
+  | bool (b : Bool)
+  | str (s : List Char)
+  deriving DecidableEq, Repr
+
+inductive Op1 where
+  | neg | pos | round | ceil | floor | abs | cat | interp
+  | nth (len : Nat)       -- `nth(<list 1 … len>, x)`
+  deriving DecidableEq, Repr
+
+inductive Op2 where
+  | add | sub | mul | div | mod | eq | ne | lt | le | gt | ge
+  deriving DecidableEq, Repr
+
+inductive Expr where
+  | lit (l : Lit)
+  | un (o : Op1) (a : Expr)
+  | bin (o : Op2) (a b : Expr)
+  deriving Repr
+
+def liftO (o : Option D) : Except Err V :=
+  match o with
+  | some d => .ok (.num d)
+  | none => .error .unsupported
+
+/-- `Number == Number` on doubles (number.rs:32 → `fuzzy_equals`) -/
+def eqD (a b : D) : Bool :=
+  match a.toRat?, b.toRat? with
+  | some x, some y => fuzzyEqF x y
+  | _, _ => D.eq a b
+
+/-- Ordering of two numbers.  `exactOrder = true` is the code as it stands (value/mod.rs:355
+    `num.partial_cmp(num2)` on the derived `PartialOrd` of `Number(f64)`: plain IEEE order);
+    `false` is the specified behaviour: numbers within the tolerance are equal. -/
+def cmpD (exactOrder : Bool) (a b : D) : Option Ordering :=
+  if a.isNan || b.isNan then none
+  else if !exactOrder && eqD a b then some .eq
+  else if D.lt a b then some .lt
+  else if D.lt b a then some .gt
+  else some .eq
+
+def cmpResult (o : Op2) (r : Option Ordering) : Bool :=
+  match r with
+  | none => false                       -- bin_op.rs:416
+  | some ord =>
+    match o with
+    | .lt => ord == .lt
+    | .le => ord != .gt
+    | .gt => ord == .gt
+    | .ge => ord != .lt
+    | _ => false
+
+def printV (compressed : Bool) : V → List Char
+  | .num d => printD false compressed d
+  | .bool b => (if b then "true" else "false").toList
+  | .str s => '"' :: s ++ ['"']
+
+/-- list.rs:11 `nth` on the list `1 2 … len`.  `exactOrder = true`: the range test
+    `index.abs() > len` is the exact IEEE comparison and runs before the integer check (code as it
+    stands); `false`: integer check first, range on the integer (specified). -/
+def nthV (exactOrder : Bool) (len : Nat) (d : D) : Except Err V :=
+  match d with
+  | .nan => .error .notInt      -- NaN: `is_zero` false, `abs > len` false, fuzzy_as_int none
+  | _ =>
+  if eqD d (.fin 0) then .error .zeroIdx else
+  match d.toRat? with
+  | none => .error .badIdx       -- ±∞ exceeds every length
+  | some x =>
+    if exactOrder then
+      if (len : Rat) < absQ x then .error .badIdx else
+      match fuzzyAsInt fuzzyEqF x with
+      | none => .error .notInt
+      | some i =>
+        -- `is_positive` = sign bit clear && !is_zero ; index_int - 1  |  len - |index_int|
+        let pos : Int := if d.isNeg then (len : Int) - i.natAbs + 1 else i
+        if 1 ≤ pos ∧ pos ≤ len then .ok (.num (.fin (pos : Rat))) else .error .unsupported
+    else
+      match fuzzyAsInt fuzzyEqF x with
+      | none => .error .notInt
+      | some i =>
+        if (len : Int) < i.natAbs then .error .badIdx else
+        let pos : Int := if i < 0 then (len : Int) - i.natAbs + 1 else i
+        if 1 ≤ pos ∧ pos ≤ len then .ok (.num (.fin (pos : Rat))) else .error .unsupported
+
+def evalUn (exactOrder : Bool) (o : Op1) (v : V) : Except Err V :=
+  match o, v with
+  | .neg, .num d => .ok (.num d.neg)
+  | .pos, .num d => .ok (.num d)
+  | .round, .num d => if d.isFinite then .ok (.num d.round) else .error .toInt
+  | .ceil, .num d => if d.isFinite then .ok (.num d.ceil) else .error .toInt
+  | .floor, .num d => if d.isFinite then .ok (.num d.floor) else .error .toInt
+  | .abs, .num d => .ok (.num d.abs)
+  | .cat, .num d => .ok (.str (printD false false d))        -- number.rs:265 to_string(false)
+  | .cat, .bool b => .ok (.str (printV false (.bool b)))
+  | .interp, .num d => .ok (.str ('x' :: printD false false d))
+  | .interp, .bool b => .ok (.str ('x' :: printV false (.bool b)))
+  | .nth len, .num d => nthV exactOrder len d
+  | _, _ => .error .type
+
+def evalBin (exactOrder : Bool) (o : Op2) (a b : V) : Except Err V :=
+  match a, b with
+  | .num x, .num y =>
+    match o with
+    | .add => liftO (D.add x y)
+    | .sub => liftO (D.sub x y)
+    | .mul => liftO (D.mul x y)
+    | .div => liftO (D.div x y)
+    | .mod => liftO (moduloD x y)
+    | .eq => .ok (.bool (eqD x y))
+    | .ne => .ok (.bool (!eqD x y))
+    | o => .ok (.bool (cmpResult o (cmpD exactOrder x y)))
+  | .bool x, .bool y =>
+    match o with
+    | .eq => .ok (.bool (x == y))
+    | .ne => .ok (.bool (x != y))
+    | _ => .error .type
+  | _, _ => .error .type
+
+def eval (exactOrder : Bool) : Expr → Except Err V
+  | .lit l => liftO (litD l)
+  | .un o a =>
+    match eval exactOrder a with
+    | .ok v => evalUn exactOrder o v
+    | .error e => .error e
+  | .bin o a b =>
+    match eval exactOrder a with
+    | .error e => .error e
+    | .ok va =>
+      match eval exactOrder b with
+      | .error e => .error e
+      | .ok vb => evalBin exactOrder o va vb
+
+/-! ## driver -/
+open Grass.Proto
+
+def op1OfStr (s : String) : Option Op1 :=
+  if s == "neg" then some .neg else if s == "pos" then some .pos
+  else if s == "round" then some .round else if s == "ceil" then some .ceil
+  else if s == "floor" then some .floor else if s == "abs" then some .abs
+  else if s == "cat" then some .cat else if s == "interp" then some .interp
+  else if s.startsWith "nth" then (s.drop 3).toString.toNat?.map Op1.nth
+  else none
+
+def op2OfStr (s : String) : Option Op2 :=
+  if s == "add" then some .add else if s == "sub" then some .sub
+  else if s == "mul" then some .mul else if s == "div" then some .div
+  else if s == "mod" then some .mod else if s == "eq" then some .eq
+  else if s == "ne" then some .ne else if s == "lt" then some .lt
+  else if s == "le" then some .le else if s == "gt" then some .gt
+  else if s == "ge" then some .ge else none
+
+/-- reverse-polish token list → expression; literals are `L<text>` -/
+def rpn : List String → List Expr → Option Expr
+  | [], [e] => some e
+  | [], _ => none
+  | t :: ts, st =>
+    if t.startsWith "L" then
+      match parseLit (t.drop 1).toString.toList with
+      | some l => rpn ts (.lit l :: st)
+      | none => none
+    else match op1OfStr t with
+      | some o =>
+        match st with
+        | a :: st => rpn ts (.un o a :: st)
+        | _ => none
+      | none =>
+        match op2OfStr t with
+        | some o =>
+          match st with
+          | b :: a :: st => rpn ts (.bin o a b :: st)
+          | _ => none
+        | none => none
+
+def errStr : Err → String
+  | .unsupported => "unsupported" | .toInt => "err toInt" | .notInt => "err notInt"
+  | .zeroIdx => "err zeroIdx" | .badIdx => "err badIdx" | .type => "unsupported"
+
+def resStr (compressed : Bool) : Except Err V → String
+  | .ok v => "ok " ++ hexEncode (String.ofList (printV compressed v))
+  | .error e => errStr e
+
+/-- exact rational as `num/den` -/
+def ratStr (q : Rat) : String := s!"{q.num}/{q.den}"
+
+/-- verdicts of P̂ on a text `s` claimed to print the finite number `x` -/
+def verdicts (compressed : Bool) (x : Rat) (s : List Char) : String :=
+  let rr := match rereadF x s with
+    | some b => boolStr b
+    | none => "u"
+  s!"shape={boolStr (shapeOK s && leadOK compressed s)} round={boolStr (roundedOK x s)} reread={rr} rereadX={boolStr (rereadX x s)} d15={boolStr (d15Class x)} d15X={boolStr (d15ClassX x)} exact={boolStr (parseLit s |>.map (fun l => decide (l.value = round10 x)) |>.getD false)}"
+
 def handle : List String → String
+  -- eval <c|e> <rpn…> : the model of the code as it stands | the specified ordering variant
+  | "eval" :: st :: toks =>
+    match parseBool? (if st == "c" then "1" else if st == "e" then "0" else st), rpn toks [] with
+    | some c, some e => resStr c (eval true e) ++ " | " ++ resStr c (eval false e)
+    | _, _ => "bad-op"
+  -- value <rpn…> : exact value of the model's result (finite numbers only)
+  | "value" :: toks =>
+    match rpn toks [] with
+    | some e =>
+      match eval true e with
+      | .ok (.num (.fin q)) => "ok " ++ ratStr q
+      | .ok (.num .nz) => "ok -0"
+      | .ok (.num .pinf) => "ok inf" | .ok (.num .ninf) => "ok -inf" | .ok (.num .nan) => "ok nan"
+      | .ok _ => "ok nonnum"
+      | .error e => errStr e
+    | none => "bad-op"
+  -- check <c|e> <hex text> <rpn…> : P̂ on the implementation's text for the model's value of the expression
+  | "check" :: st :: hx :: toks =>
+    match parseBool? (if st == "c" then "1" else if st == "e" then "0" else st), hexDecode hx, rpn toks [] with
+    | some c, some txt, some e =>
+      match eval true e with
+      | .ok (.num (.fin q)) => "ok fin " ++ verdicts c q txt.toList
+      | .ok (.num .nz) => "ok fin " ++ verdicts c 0 txt.toList
+      | .ok (.num d) => "ok special " ++ boolStr (txt.toList == printD false c d)
+      | .ok _ => "ok nonnum"
+      | .error e => errStr e
+    | _, _, _ => "bad-op"
+  -- print <c|e> <asfound-slice 0|1> <num> <den> : print an exact rational (used by other cores / replay)
+  | ["print", st, sl, n, d] =>
+    match parseBool? (if st == "c" then "1" else if st == "e" then "0" else st), parseBool? sl, n.toInt?, d.toNat? with
+    | some c, some sl, some n, some d =>
+      if d = 0 then "bad-op" else "ok " ++ hexEncode (String.ofList (printFinite sl c ((n : Rat) / (d : Rat))))
+    | _, _, _, _ => "bad-op"
+  | ["fuzzyround", n, d] =>
+    match n.toInt?, d.toNat? with
+    | some n, some d => if d = 0 then "bad-op" else s!"ok {fuzzyRoundX ((n : Rat) / (d : Rat))}"
+    | _, _ => "bad-op"
   | _ => "bad-op"
 
 end Grass.Num
